@@ -195,7 +195,7 @@ func sliceSources(v ssa.Value, seen map[ssa.Value]bool, elems *[]ssa.Value, appe
 
 func runC20(c *Ctx) {
 	p, r := c.P, c.R
-	r.Explanation = "Decides that Broker.Reopen reaches every node and carries every failure: the per-graph reopen is applied to every value of the whole graphs map (directly or through a snapshot slice filled by a full range over the map), the per-graph reopen ranges the roots with a callback that always continues and starts the per-node walk at each pipeline's root, the per-node step invokes Reopen on the node and then visits every successor (loops whose only exits are exhaustion or an error return); and no error on the chain Node.Reopen -> doReopen -> reopen -> Broker.Reopen is dropped or replaced, with the all-nil path returning nil. sync.Map.Range visiting every key is trusted (A4). Every nil return of Broker.Reopen walked all graphs; errors merged into a variable that is later overwritten are reported path-sensitively."
+	r.Explanation = "Decides that Broker.Reopen reaches every node and carries every failure: the per-graph reopen is applied to every value of the whole graphs map (directly or through a snapshot slice filled by a full range over the map), the per-graph reopen ranges the roots with a callback that always continues and starts the per-node walk at each pipeline's root, the per-node step invokes Reopen on the node and then visits every successor (loops whose only exits are exhaustion or an error return); and no error on the chain Node.Reopen -> doReopen -> reopen -> Broker.Reopen is dropped or replaced, with the all-nil path returning nil. sync.Map.Range visiting every key is trusted (A4). Every nil return of Broker.Reopen walked all graphs; errors merged into a variable that is later overwritten are reported path-sensitively. Also: every successful return of the per-node step lies behind the successor loop, and no error of foreign origin is handed to multierror.Append unwrapped (it flattens, and an empty *multierror.Error vanishes)."
 	r.NotDecided = []string{"sync.Map.Range visiting every key (A4)", "behaviour of the nodes' own Reopen"}
 	c.errControls()
 	c.errStrict = true // "carries that failure"
@@ -375,6 +375,25 @@ func runC20(c *Ctx) {
 				okChild = ct.Args[0].Is("Field", "next") && ct.Args[0].Args[0].IsParam(nodeParam)
 			}
 			r.Check(okChild, "C20.all", "doReopen:children", p.InstrPos(rec[0]), "every successor node.next[i] is visited (loop exits: exhausted or error return)", "not every successor is visited: "+why+" (child="+child+")")
+			// ... and the loop over the successors is reached whenever the node itself reopened:
+			// every return of a nil error lies behind the loop (no "nothing can follow a node like
+			// this one" shortcut: registration accepts inner nodes of any type)
+			if hdr := innermostHeader(rec[0].Block()); hdr != nil {
+				okReach := true
+				for _, ret := range Returns(doRe) {
+					rv := RetVals(ret)
+					if len(rv) == 0 || !isNilConst(rv[len(rv)-1]) {
+						continue
+					}
+					if !hdr.Dominates(ret.Block()) {
+						okReach = false
+						r.Bad("C20.all", "doReopen:children-reached", p.InstrPos(ret), "the per-node step returns success without having walked the node's successors: nodes linked behind such a node are never reopened, and Broker.Reopen still returns nil")
+					}
+				}
+				if okReach {
+					r.Ok("C20.all", "doReopen:children-reached", p.InstrPos(rec[0]), "every successful return of the per-node step lies behind the loop over the successors")
+				}
+			}
 		}
 	}
 	r.Floor("C20.all", 6)
@@ -389,6 +408,7 @@ func runC20(c *Ctx) {
 	if graphReopen != nil {
 		c.accumulateRule("C20.carry", graphReopen)
 	}
+	c.ruleNoFlatten("C20.carry")
 	// all-nil path returns nil: Reopen's final return is the nil constant
 	hasNil := false
 	for _, ret := range Returns(reopen) {
@@ -483,17 +503,31 @@ func (c *Ctx) accumulateRule(rule string, fn *ssa.Function) {
 						continue
 					}
 					eb := iff.Block().Succs[0]
-					for _, x := range eb.Instrs {
-						st, ok := x.(*ssa.Store)
-						if !ok {
+					for _, blk := range cb.Blocks {
+						if blk != eb && !eb.Dominates(blk) {
 							continue
 						}
-						// store into the captured accumulator (free variable bound to accCell)
-						ctb := p.NewTerms(nil)
-						at := ctb.Of(st.Addr)
-						vt := ctb.Of(st.Val)
-						if at.V == accCell && vt.Op == "Call" && vt.Name == "github.com/hashicorp/go-multierror.Append" && termMentions(vt, call, ctb.Of(call).String()) {
-							okAcc = true
+						for _, x := range blk.Instrs {
+							st, ok := x.(*ssa.Store)
+							if !ok {
+								continue
+							}
+							// store into the captured accumulator (free variable bound to accCell)
+							ctb := p.NewTerms(nil)
+							at := ctb.Of(st.Addr)
+							vt := ctb.Of(st.Val)
+							if blk == eb && at.V == accCell && vt.Op == "Call" && vt.Name == "github.com/hashicorp/go-multierror.Append" && termMentions(vt, call, ctb.Of(call).String()) {
+								okAcc = true
+							}
+							// or: appended to the accumulator's own list, acc.Errors = append(acc.Errors, err)
+							if fa, isFA := st.Addr.(*ssa.FieldAddr); isFA && vt.Is("Call", "builtin append") && termMentions(vt, call, ctb.Of(call).String()) {
+								if ld, isLd := fa.X.(*ssa.UnOp); isLd && ctb.Of(ld.X).V == accCell {
+									if stt, isSt := ld.X.Type().Underlying().(*types.Pointer); isSt {
+										_ = stt
+										okAcc = true
+									}
+								}
+							}
 						}
 					}
 				}
